@@ -368,7 +368,8 @@ pub fn split(s: &str) -> Result<Vec<Arg>, ParseError> {
                 Some(_) => Comment,
             },
         };
-        pos += 1;
+        // `pos` is used for slicing the input, so it must be a byte offset, not a char index
+        pos += c.map_or(0, char::len_utf8);
     }
 
     Ok(words)
